@@ -742,6 +742,10 @@ func (env *Env) call(x *ECall) SVal {
 		re := env.value(env.eval(x.Args[0]))
 		str := env.value(env.eval(x.Args[1]))
 		return b(app(d.Fun("regexp_MatchString", []string{"Ref", "Str"}, "Bool"), re.T, str.T))
+	case "decOf":
+		// decOf(s): the number decimal.NewFromString reads from s (the uninterpreted function of the code model)
+		v := env.value(env.eval(x.Args[0]))
+		return SVal{T: app(d.Fun("decimal_of_string", []string{"Str"}, "Real"), v.T), Typ: nil, Sort: "Real"}
 	case "trimPrefix", "cat":
 		// trimPrefix(s, p) = strings.TrimPrefix, cat(s, t) = s + t: the uninterpreted functions of the code model
 		l := env.value(env.eval(x.Args[0]))
@@ -790,6 +794,24 @@ func (env *Env) call(x *ECall) SVal {
 			fail("strOf of non-slice")
 		}
 		return SVal{T: app(d.Fun("str_of_bytes", []string{"Slice"}, "Str"), v.T), Typ: types.Typ[types.String], Sort: "Str"}
+	case "textOf":
+		// textOf(bs): string(bs) with the byte contents of the current state (a function of slice and byte heap)
+		v := env.value(env.eval(x.Args[0]))
+		if v.Sort != "Slice" {
+			fail("textOf of non-slice")
+		}
+		lh := env.a.elemHeap(types.Typ[types.Byte])
+		return SVal{T: app(d.Fun("str_of_bytes_now", []string{"Slice", lh.sort}, "Str"), v.T, env.cur.heap(lh.name, lh.sort)), Typ: types.Typ[types.String], Sort: "Str"}
+	case "obj":
+		// obj(xs): the identity of the allocation a slice (or pointer) lives in
+		xs := env.value(env.eval(x.Args[0]))
+		switch xs.Sort {
+		case "Slice":
+			return SVal{T: app("rid", app("sarr", xs.T)), Typ: tInt, Sort: "Int"}
+		case "Ref":
+			return SVal{T: app("rid", xs.T), Typ: tInt, Sort: "Int"}
+		}
+		fail("obj of %s", xs.Sort)
 	case "base":
 		// base(xs): the backing array of a slice
 		xs := env.value(env.eval(x.Args[0]))
@@ -971,6 +993,20 @@ func (env *Env) call(x *ECall) SVal {
 		}
 		h, hs := d.CellHeap(t)
 		return env.sv(hsel(env.u, env.cur.heap(h, hs), app("iptr", v.T)), t)
+	case "oldElemsKept":
+		// oldElemsKept(xs): every slice element of the element type of xs that existed in the old state still
+		// holds its old value (a frame statement for loops whose writes go to freshly allocated slices only)
+		v := env.value(env.eval(x.Args[0]))
+		sl, ok := types.Unalias(v.Typ).Underlying().(*types.Slice)
+		if !ok || env.old == nil {
+			fail("oldElemsKept needs a slice (for its element type) and an old state")
+		}
+		var cs []Term
+		for _, lh := range env.a.elemHeaps(sl.Elem()) {
+			cur, old := env.cur.heap(lh.name, lh.sort), env.old.heap(lh.name, lh.sort)
+			cs = append(cs, fmt.Sprintf("(forall ((r Ref)) (! (=> (< (rid r) %s) (= (select %s r) (select %s r))) :pattern ((select %s r))))", env.old.alloc, cur, old, cur))
+		}
+		return b(and(cs...))
 	case "sameElems":
 		// sameElems(xs): the elements of slice xs hold the same values as in the old state
 		v := env.value(env.eval(x.Args[0]))
